@@ -412,8 +412,10 @@ def x_rand(p):
         kw = {} if p["mode"] == "default" else {"mode": p["mode"]}
         r1 = rt.WellRandomizer(sh, p["seed"], **kw)
         r2 = rt.WellRandomizer(sh, p["seed"], **kw)
-        tab1 = [[_parse_wid(str(k)), _parse_wid(str(v))] for k, v in r1.lookup.items()]
-        tab2 = [[_parse_wid(str(k)), _parse_wid(str(v))] for k, v in r2.lookup.items()]
+        # the assignment table, obtained through the public call only (every well of the plate, one by one and at once)
+        allw = [wid(rr, cc) for rr in range(sh[0]) for cc in range(sh[1])]
+        tab1 = [[_parse_wid(w), _parse_wid(str(v))] for w, v in zip(allw, np.asarray(r1.randomize_wells(allw)).flatten())]
+        tab2 = [[_parse_wid(w), _parse_wid(str(r2.randomize_wells(w)))] for w in allw]
         arg = _wells_arg(p["wells"], p.get("present", "list"))
         rnd = r1.randomize_wells(arg)
         res["rnd"] = _arr_to_shape(rnd)
